@@ -463,7 +463,7 @@ def real_tls_close(res, W):
                             conn.sendall(R.encode(R.CLOSE, b"\x03\xe8"))
                         except OSError:
                             pass
-                    srv.drain(conn, 7.0 if peer == "silent" else 1.0)
+                    srv.drain(conn, 7.0 if peer == "silent" else 1.0, stay_open=(peer == "silent"))
                     conn.close()
                 srv = realtls.ScriptedTLSServer(P["leaf-A-local"], script)
                 srv.start()
